@@ -11,6 +11,14 @@ from ..engine import ModelGap
 from .seq import Seq, Seg, clamp_slice
 
 NATIVE = '<' if sys.byteorder == 'little' else '>'
+newaxis = None
+
+
+def __getattr__(name):
+    # a changed /repo reaching for a NumPy feature outside the modelled subset: inconclusive, never green
+    if name.startswith('__'):
+        raise AttributeError(name)
+    raise ModelGap(f'numpy.{name} is not modelled')
 
 _TYPES = {
     # name: (kind, itemsize, code)
@@ -478,9 +486,14 @@ def _getitem(a, index):
             return _make_view(a, ndarray(a.dtype, sub,
                                          Seq(Seg(('lit', v), 0, 1) for v in vals)))
         return _make_view(a, ndarray(a.dtype, sub, Seq.of(('sub', src, off), sub[0])))
-    if isinstance(index, (float, str)) or index is None:
-        if index is None:
-            raise ModelGap('newaxis')
+    if index is None:
+        # a[np.newaxis]: one more leading axis of length 1 whose single row is the whole array
+        if a.ndim == 0:
+            return ndarray(a.dtype, (1,), rows)
+        return ndarray(a.dtype, (1,) + a._shape, Seq.of(('whole', a.dtype.name, _segs_key(rows)), 1))
+    if isinstance(index, (float, str)):
+        if False:
+            pass
         raise IndexError('only integers, slices (`:`), ellipsis (`...`), numpy.newaxis '
                          '(`None`) and integer or boolean arrays are valid indices')
     raise ModelGap(f'index of type {type(index).__name__}')
